@@ -147,6 +147,17 @@ theorem ellipsis_fixed (h : Bytes) (s : Text.Slice) (n : Int) (hv : s.Valid h) :
     (Text.ellipsisBFixed h s n).1 = h ∧ (Text.ellipsisBFixed h s n).2.view h = Text.ellipsis (s.view h) n :=
   ⟨Text.ellipsisBFixed_heap h s n, Text.ellipsisBFixed_view h s n hv⟩
 
+/-- inside the truncating branch the pinned helper ALWAYS writes in place (never a fresh array), the
+    three dots land inside the input window, and nothing outside the window changes -/
+theorem ellipsis_write_in_window (h : Bytes) (s : Text.Slice) (n : Int) (hv : s.Valid h)
+    (hc : ((Text.trimSpace (s.view h)).length : Int) > n ∧ 3 ≤ (Text.trimSpace (s.view h)).length ∧ 3 < n) :
+    ∃ w, (Text.ellipsisB h s n).2 = .window w ∧ s.off ≤ w.off ∧ w.off + w.len ≤ s.off + s.len ∧ 3 ≤ w.len ∧
+      (Text.ellipsisB h s n).1 = Text.writeAt h (w.off + w.len - 3) Text.dots ∧
+      (Text.ellipsisB h s n).1.length = h.length ∧
+      (∀ i, i < s.off ∨ s.off + s.len ≤ i → (Text.ellipsisB h s n).1[i]? = h[i]?) ∧
+      (∀ j, j < 3 → (Text.ellipsisB h s n).1[w.off + w.len - 3 + j]? = some 46) :=
+  Text.ellipsisB_write_in_window h s n hv hc
+
 /-- witness: "  hello world  " with length 8 — the caller's array reads "  hello...rld  " afterwards -/
 theorem ellipsisB_writes_witness :
     Text.ellipsisB [32,32,104,101,108,108,111,32,119,111,114,108,100,32,32] ⟨0, 15, 15⟩ 8
@@ -242,6 +253,7 @@ end Ro.C18
 #print axioms Ro.C18.ellipsis_flavours_agree
 #print axioms Ro.C18.ellipsis_input_untouched_partial
 #print axioms Ro.C18.ellipsis_fixed
+#print axioms Ro.C18.ellipsis_write_in_window
 #print axioms Ro.C18.ellipsisB_writes_witness
 #print axioms Ro.C18.sort_small_is_stable
 #print axioms Ro.C18.sort_sorted_perm
